@@ -423,3 +423,11 @@ End Importer.
 (* every stored row's bin agrees with its coordinates (C12: "the bin stored with every imported feature equals bins(start, end)";
    the standing hypothesis of the C06 theorems about bin pre-filters) *)
 Definition bins_ok (st : ist) : Prop := forall r, In r (s_rows st) -> bin_consistent r = true.
+
+(* "no Parent link lost or invented", level 1: the level-1 rows are exactly the Parent values of the stored rows, each filed
+   under the key its row is stored under (C05_parent_links_exact) *)
+Definition parent_vals (r : row) : list str := vals PARENT (r_attrs r).
+Definition links_of (rows : list row) : list rel := flat_map (fun r => map (fun p => mkRel p (r_id r) 1) (parent_vals r)) rows.
+Definition l1_exact (st : ist) : Prop :=
+  forall x, rel_level x = 1 -> (In x (s_rels st) <-> In x (links_of (s_rows st))).
+
